@@ -34,5 +34,8 @@ Expect(q, o) ==
     [] o.op = "peek"    -> LET k == IF o.n <= 0 THEN have ELSE Min2(o.n, have) IN [q |-> q, ret |-> k, runs |-> Run(q.lo, k)]
     [] o.op = "discard" -> LET k == Min2(o.n, have) IN [q |-> [q EXCEPT !.lo = @ + k], ret |-> k, runs |-> <<>>]
     [] o.op = "reset"   -> [q |-> [q EXCEPT !.lo = q.hi], ret |-> 0, runs |-> <<>>]
+    \* the owner is finished with the content (a connection is closed: elastic.RingBuffer.Done, elastic.Buffer.Release hand
+    \* the ring back to the pool whatever it holds); whoever uses the queue next starts from an empty one
+    [] o.op = "done"    -> [q |-> [q EXCEPT !.lo = q.hi], ret |-> 0, runs |-> <<>>]
 
 =============================================================================
